@@ -217,6 +217,8 @@ class Sim:
             self.do_close(131)                 # pkt_ack: close(Some(Disconnect { ImplementationSpecificError }))
 
     def wait_publish_response(self, pid, ack, rem, tag, big=False):
+        if self.io != 0:
+            return None, 3           # check_stopped: the queues have been cleared
         if self.srem:
             return None, 5
         if pid in self.ids:
@@ -232,6 +234,8 @@ class Sim:
         return c, None
 
     def wait_response(self, pid, ack, tag):
+        if self.io != 0:
+            return None, 3
         if self.srem:
             return None, 5
         if pid in self.ids:
@@ -280,6 +284,10 @@ class Sim:
             self.set(x, "done", e)
 
     def window_then_proceed(self, x):
+        if self.io != 0:
+            # queues cleared: wait_readiness() hands out a receiver whose sender is gone, the send fails at once
+            self.set(x, "done", 3)
+            return
         c = self.wait_readiness()
         if c is not None:
             self.set(x, "parked", c)
@@ -519,11 +527,26 @@ class Sim:
         sm["cstat"] = 0
 
     # ---- operations
+    auto = None       # the task owned by the executor (operation 19)
+
+    def auto_poll(self):
+        if self.auto is not None:
+            self.poll_task(self.auto)
+
     def step(self, op):
         self.wire = []
         o = op[0] if op else 0
         a = lambda i: op[i] if len(op) > i else 0  # noqa: E731
-        if o == 1 and len(op) >= 3:
+        if o == 19 and len(op) >= 4:
+            if self.auto is None and a(2) in (1, 3, 4) and a(1) not in self.tasks:
+                self.start(a(1), a(2), a(3), 0)
+                self.auto = a(1)
+                if self.io == 1:
+                    self.io = 2
+                return self.observe()
+        elif o in (2, 3) and len(op) >= 2 and a(1) == self.auto:
+            pass
+        elif o == 1 and len(op) >= 3:
             self.start(a(1), a(2), a(3), a(4))
         elif o == 2 and len(op) >= 2:
             self.poll_task(a(1))
@@ -544,6 +567,15 @@ class Sim:
             self.cap = a(1)
         elif o == 10:
             self.do_close()
+        elif o == 18 and len(op) >= 2:
+            # graceful close and a poll of task t in the same turn: the poll sees the closing state (io 1)
+            self.do_close()
+            self.poll_task(a(1))
+            self.auto_poll()
+            if self.io == 1:
+                self.io = 2
+            self.clear_queues()          # the dispatcher's shutdown once the io has stopped
+            return self.observe()
         elif o == 11:
             self.do_force_close()
         elif o == 12 and len(op) >= 2:
@@ -562,6 +594,7 @@ class Sim:
             pid = a(1) % 65536
             if self.io == 0 and self.srem == 0 and pid != 0 and not self.client:
                 self.wire += [104, pid]
+        self.auto_poll()                 # a woken spawned task runs before the connection settles
         if self.io == 1:
             self.io = 2
         return self.observe()
@@ -942,6 +975,17 @@ def cancelled_waiter_case(rng, ver, role):
     return [cfg] + ops
 
 
+def auto_of(ops):
+    """the task handed to the executor (first valid operation 19), or None"""
+    seen = set()
+    for o in ops:
+        if o and o[0] == 19 and len(o) >= 4 and o[2] in (1, 3, 4) and o[1] not in seen:
+            return o[1]
+        if o and o[0] in (1, 16) and len(o) >= 3:
+            seen.add(o[1])
+    return None
+
+
 def idle_suffix(case, obs):
     """(tasks polled in the trailing idle round, tasks pending at the end): the trailing poll operations during
     which the observation did not change and nothing was written"""
@@ -960,6 +1004,9 @@ def idle_suffix(case, obs):
     while j >= 1 and ops[j] and ops[j][0] == 2 and len(ops[j]) == 2 and of[j] == of[j - 1] and of[j].endswith(",255"):
         polled.add(ops[j][1])
         j -= 1
+    a = auto_of(ops)
+    if a is not None:
+        polled.add(a)                    # the executor polls its task whenever it is woken
     return polled, pend
 
 
@@ -986,7 +1033,13 @@ def closing_cases(rng, ver, role=0, count=600):
             ops.append([4] + head)
             s.step(ops[-1])
         if end.endswith("close"):
-            ops.append([10])
+            # half of the graceful closes are followed IN THE SAME TURN by the poll of a task that is still pending
+            # (operation 18: what an executor does with a sender woken just before the teardown)
+            pend = [t for t in sorted(s.tasks) if s.tasks[t].st not in ("dropped", "done", "receipt")]
+            if pend and rng.random() < 0.5:
+                ops.append([18, rng.choice(pend)])
+            else:
+                ops.append([10])
         elif end.endswith("force"):
             ops.append([11])
         elif end == "ack+badack" and head is not None:
@@ -999,7 +1052,17 @@ def closing_cases(rng, ver, role=0, count=600):
                 if s.tasks[t].st != "dropped":
                     ops.append([2, t])
                     s.step(ops[-1])
-        out.append(line([fs[0]] + ops))
+        ln = line([fs[0]] + ops)
+        out.append(spawnify(ln, rng, role) if rng.random() < 0.35 else ln)
+    # the fixed shapes: a sender parked on the window (or not yet polled) resumes in the turn of the teardown
+    for cap, pre in ((1, [[1, 1, 1, 0], [1, 2, 1, 0], [4, 1, 1]]), (1, [[1, 1, 2, 0], [1, 2, 2, 0], [4, 2, 1]]),
+                     (1, [[1, 1, 1, 0], [1, 2, 3, 0], [4, 1, 1]]), (1, [[1, 1, 1, 0], [1, 2, 7, 0, 4], [4, 1, 1]]),
+                     (2, [[16, 1, 3, 0]]), (2, [[16, 1, 4, 0]]), (1, [[8, 1], [1, 1, 1, 0], [8, 0]]),
+                     (2, [[1, 1, 2, 0], [4, 2, 1]])):
+        t = 2 if len(pre) == 3 and pre[1][0] == 1 else 1
+        if role == 0 and any(o[0] in (1, 16) and o[2] in (3, 4) for o in pre):
+            continue
+        out.append(line([[cap, role]] + pre + [[18, t], [2, t], [2, 1], [2, 2]]))
     return out
 
 
@@ -1068,6 +1131,9 @@ def stuck_report(ver, case, obs):
     while j >= 1 and ops[j] and ops[j][0] == 2 and len(ops[j]) == 2 and of[j] == of[j - 1] and of[j].endswith(",255"):
         polled.add(ops[j][1])
         j -= 1
+    a = auto_of(ops)
+    if a is not None and polled:
+        polled.add(a)
     if not set(pend) <= polled:
         return None
     return ("+".join(sorted(why)) or "UNEXPLAINED", pend[0])
@@ -1134,8 +1200,53 @@ def wrong_kind_cases(role):
     return out
 
 
+def spawnify(c, rng, role=0):
+    """hand one send of the case (kind 1, or 3 / 4 for a client) to the executor: its start becomes operation 19 and
+    the polls / the drop of that task disappear (the executor polls it whenever it is woken)"""
+    fs = [[int(x) for x in f.split(",")] if f else [] for f in c.split(";")]
+    ok = (1,) if role == 0 else (1, 3, 4)
+    seen = set()
+    cand = []
+    for j, o in enumerate(fs[1:], 1):
+        if o and o[0] in (1, 16) and len(o) >= 4 and o[1] not in seen:
+            if o[2] in ok:
+                cand.append(j)
+            seen.add(o[1])
+    if not cand:
+        return c
+    j = rng.choice(cand)
+    t = fs[j][1]
+    fs[j] = [19, t, fs[j][2], fs[j][3]]
+    out = [fs[0]] + [o for k, o in enumerate(fs[1:], 1) if k == j or not (o and o[0] in (2, 3) and len(o) >= 2 and o[1] == t)]
+    return line(out)
+
+
+SPAWN_SEEDS = [
+    # a spawned sender parked on the window; the acknowledgement that wakes it and the teardown arrive in one write
+    "1,0;1,1,1,0;19,2,1,0;5,1,1,1,60000;2,1",
+    # .. with write back-pressure flagged: it must not park again (391c248)
+    "1,0;1,1,1,0;19,2,1,0;8,1;5,1,1,1,60000;2,1",
+    "1,0;1,1,2,0;19,2,1,0;8,1;5,2,1,1,60000;2,1",
+    # woken, then closed by the application in the same turn as another task's poll
+    "1,0;1,1,1,0;19,2,1,0;4,1,1;8,1;18,1;2,1",
+    "1,0;1,1,1,0;19,2,1,0;8,1;4,1,1;10;2,1",
+    "2,0;1,1,1,0;1,2,1,0;19,3,1,0;8,1;4,1,1;11;2,1;2,2",
+    # the plain life of a spawned send: parked, woken, written, acknowledged
+    "1,0;1,1,1,0;19,2,1,0;4,1,1;2,1;4,1,2",
+    "1,0;19,1,1,0;19,2,1,0;4,1,1;10",
+    "1,0;8,1;19,1,1,0;8,0;4,1,1",
+    "1,0;9,0;19,1,1,0;9,1;4,1,1",
+]
+
+
 def gen_all(rng, ver, role=0, exh_len=6, exh_limit=None, n_random=8000, n_qos2=800):
     cases = list(SEEDS) if role == 0 else [c.replace(",0;", ",%d;" % role, 1) for c in SEEDS]
+    cases += list(SPAWN_SEEDS) if role == 0 else [c.replace(",0;", ",%d;" % role, 1) for c in SPAWN_SEEDS]
+    if role != 0:
+        cases += ["2,%d;19,1,3,0;4,4,1" % role, "2,%d;19,1,4,0;8,1;5,5,1,1,60000" % role,
+                  "1,%d;1,1,1,0;19,2,3,0;8,1;5,1,1,1,60000;2,1" % role]
+    cases += [spawnify(rand_case(rng, ver, role, flavour=rng.choice(["window", "window", "mixed", "errors"])), rng, role)
+              for _ in range(n_random // 6)]
     cases += wrong_kind_cases(role)
     cases += exhaustive(ver, exh_len, role=role, limit=exh_limit, rng=rng, kinds=(1, 2, 5) if role == 0 else (1, 2, 3))
     cases += qos2_orders(rng, ver, role, n_qos2)
